@@ -105,10 +105,13 @@ def build(S):
         S.add(I, "replace/overlap/single-bulk-delete-of-the-set", [], z3.BoolVal(ok2), clause='each atom removed at most once (list of a set)')
         # the caller's flag is the flag the overlap test reads: the parameter is never rebound inside the function
         flag = 'ignore_atoms_should_not_be_deleted_twice'
-        stores = [n for n in ast.walk(fn) if (isinstance(n, ast.Name) and n.id == flag and isinstance(n.ctx, (ast.Store, ast.Del)))
-                  or (isinstance(n, (ast.Global, ast.Nonlocal)) and flag in n.names)]
-        ok3 = flag in [a.arg for a in fn.args.args + fn.args.kwonlyargs] and not stores
-        S.add(I, "replace/overlap/the-ignore-flag-is-the-callers", [], z3.BoolVal(ok3), clause='overlap is refused unless the CALLER asked to ignore it')
+        from contracts import frames
+        if flag not in [a.arg for a in fn.args.args + fn.args.kwonlyargs]:
+            raise OutOfSubset("parameter %s not found (contract no longer applies)" % flag)
+        v = frames.verdict(frames.rebindings(fn, flag))
+        if v == 'unknown':
+            raise OutOfSubset("the parameter %s is rebound to something the contract cannot read" % flag)
+        S.add(I, "replace/overlap/the-ignore-flag-is-the-callers", [], z3.BoolVal(v == 'same'), clause='overlap is refused unless the CALLER asked to ignore it')
     S.guarded('overlap block', run_block)
 
     # ------------------------------------------------------------------ loop-level lemma (pure logic over the block contract)
